@@ -58,6 +58,11 @@ CHECKS = {
   note="Trusted: go/ssa, the must-held lock analysis. Two genuine defects (slot from live counter, check-then-act) were repaired by fix: commits.",
   tech="static analysis: value-provenance of the block index, shape rules on SSA arithmetic, lock-hold analysis, path-sensitive must-log dataflow",
   ref="DESIGN.md §2 C10"),
+ "C02": dict(
+  text="Structural necessary conditions of 'one address or prefix is never bound to two DHCP clients' on pkg/dhcp and pkg/dhcpv6: the client-named address in a REQUEST is stored/acknowledged only where it equals the existing lease's address or addressOfferedTo held (provenance/dominance); every NAK is returned at once; DECLINE quarantines only the declining client's own leased address and quarantine removes it from owner map and free list; a DHCPv6 DECLINE does not put the address back into the free pool (known finding: it does); v6 bindings are keyed by the message's Client-ID DUID; OFFER addresses come from the client's lease or an allocator; the pool is handed the lease's own address on release/expiry, never a request field; once the v6 expiry stamp is consulted, every binding-recording path stamps it; free lists exclude network/broadcast/gateway. Together with C05 (conservation, lockset, put-back) and C20. Not decided: clock skew, restart reloads, external Nexus allocator behaviour.",
+  note="Trusted: go/ssa and VTA call graph; Nexus/HTTP allocator hands out unique addresses (external).",
+  tech="static analysis: provenance/taint and dominance rules on go/ssa, store-shape rules, conditional completeness rule",
+  ref="DESIGN.md §2 C02"),
  "C04": dict(
   text="The PPPoE server's per-session handlers are analysed by finite-domain disjunctive dataflow over (session state x authenticated flag) for every pre-configuration allowed by the invariant: no handler leaves a session Established, takes a client address from the pool, or sends an IPCP packet in a configuration whose authenticated flag is false; the flag is stored only from this exchange's RADIUS verdict (value provenance through the phi of the && chain; constant true only with no RADIUS client); in the session-frame and PADT handlers every use of the looked-up session is dominated by bytes.Equal(source MAC, session.ClientMAC). CHAP arithmetic and timing are not decided.",
   note="Trusted: go/ssa; RADIUS library semantics of AuthResponse.Accepted. Both C04 gaps of the original tree (no IPCP gate, no owner-MAC check) were repaired by fix: commits.",
